@@ -216,6 +216,15 @@ Definition decode (registered valid : bool) (p : packet) : option packet :=
     end
   else None.
 
+(* DecodeTo(msg): unmarshal the wire form into a caller-supplied message; valid = proto.Unmarshal
+   accepts the bytes for that message type.  Some true = nil returned, Some false = error; an
+   empty wire form leaves the message alone. *)
+Definition decode_to (valid : bool) (p : packet) : bool :=
+  match body_to_bytes (pbody p) with
+  | [] => true
+  | _ => valid
+  end.
+
 (* ---- across the wire (codec/marshal.go + the header fields each codec carries) ------- *)
 Record coders : Type := mkCo {
   compress : list Z -> list Z;
@@ -231,10 +240,15 @@ Definition tag_coders : coders :=
        (map (fun x => Z.lxor x 90)) (map (fun x => Z.lxor x 90)).
 
 (* marshalPacketBody: (flag written into the header and left on the sender's packet, payload) *)
+(* the two marshalling marks describe the body produced by THIS call: marks left on the packet
+   (by an earlier encode, or by the sender) are dropped first *)
+Definition unmark (f : Z) : Z := Z.land f (255 - root_PFlagCompressed - root_PFlagEncrypted).
+
 Definition marshal_body (c : coders) (threshold : Z) (enc : bool) (p : packet) : Z * list Z :=
   let b := body_to_bytes (pbody p) in
+  let f0 := unmark (flg p) in
   let '(f1, b1) := if (0 <? threshold) && (threshold <? Z.of_nat (length b))
-                   then (Z.lor (flg p) root_PFlagCompressed, compress c b) else (flg p, b) in
+                   then (Z.lor f0 root_PFlagCompressed, compress c b) else (f0, b) in
   if negb (Nat.eqb (length b1) 0) && enc
   then (Z.lor f1 root_PFlagEncrypted, encrypt c b1) else (f1, b1).
 
